@@ -63,7 +63,7 @@ func ruleHoldPropagate(c *Ctx, r *Rule) {
 		var hStores []*ssa.Store
 		for _, b := range do.Blocks {
 			for _, in := range b.Instrs {
-				if st, ok := in.(*ssa.Store); ok && st.Val == ssa.Value(ev) {
+				if st, ok := in.(*ssa.Store); ok && (st.Val == ssa.Value(ev) || stripConv(st.Val) == ssa.Value(ev)) {
 					if o, f, base, ok := fieldOf(st.Addr); ok && o == owner && base == ssa.Value(recv) {
 						hField = f
 						hStores = append(hStores, st)
